@@ -203,6 +203,7 @@ func (intp *Interpreter) executeOne(obj Object, execProc bool) error {
 		defer func() { intp.execStackDepth-- }()
 	}
 
+recurseTail:
 	if len(intp.Stack) > maxOperandStackDepth {
 		return intp.e(eStackoverflow, "operand stack overflow")
 	}
@@ -227,7 +228,6 @@ func (intp *Interpreter) executeOne(obj Object, execProc bool) error {
 	}
 
 	// quax := true
-recurseTail:
 	// if !quax {
 	// 	fmt.Println("|-", intp.stackString(), "|", intp.objectString(obj))
 	// }
